@@ -1,6 +1,9 @@
 SPECIFICATION Spec
 CONSTANTS
+  MinClasses = 1
   MaxClasses = 3
+  MroOnly = FALSE
+  AscBases = TRUE
   MaxOwn = 1
   MaxHard = 1
   MaxPop = 1
@@ -13,7 +16,7 @@ CONSTANTS
   MaxChain = 2
   FnOwn = 1
   EmitAllUpTo = 1
-  Sel = 12
+  Sel = 20
   KeepGoing = TRUE
 INVARIANT Inv
 CHECK_DEADLOCK FALSE
